@@ -22,6 +22,7 @@ struct Elem {
     size_t key;
     int visits;
     struct cstl_hash_node hn;
+    struct cstl_hash_node hn2;      // "mixed offsets" cases (header byte 0, bit 7): table T1 links this member
 };
 
 enum Op { RESIZE, REHASH, SHRINK, INS, FIND, FIND_V, ERASE, ERASE_ABSENT, SWAP, FOREACH, FOREACH_ERASE, FOREACH_CONST,
@@ -135,9 +136,11 @@ struct Table {
     size_t B, keyed_since;  // C19: buckets when the resize was accepted; keyed ops since
     std::map<size_t, size_t> phys;   // C19 (unique keys): key -> physical bucket
     std::unordered_map<const void *, size_t> where;   // live element -> its key
-    void init(const char *t)
+    size_t off;             // which node member this table object links (exchanged by swap)
+    void init(const char *t, size_t o = offsetof(Elem, hn))
     {
         tag = t;
+        off = o;
         model.clear();
         phys.clear();
         fresh_clear(where);
@@ -145,7 +148,7 @@ struct Table {
         has_buckets = pending = false;
         cap = cur_n = tgt_n = B = keyed_since = 0;
         cur_f = tgt_f = F_NULL;
-        cstl_hash_init(&h, offsetof(Elem, hn));
+        cstl_hash_init(&h, off);
     }
 };
 
@@ -597,7 +600,7 @@ bool apply(int op, uint8_t a, uint8_t b, uint8_t c, int ntab, size_t K, size_t m
     }
     case ERASE_ABSENT: {
         Elem *e = nullptr;
-        if (ntab == 2 && (c & 1) && T[(a + 1) % ntab].n > 0) {
+        if (ntab == 2 && (c & 1) && T[(a + 1) % ntab].n > 0 && T[(a + 1) % ntab].off == t.off) {
             // an object that is live, but in the other table (only its key field is read to pick the bucket to search)
             Table &o = T[(a + 1) % ntab];
             size_t idx = (size_t)b % o.n;
@@ -607,7 +610,7 @@ bool apply(int op, uint8_t a, uint8_t b, uint8_t c, int ntab, size_t K, size_t m
         if (!e && P.graveyard.empty()) { CNT("noop.erase_absent"); TRACE("%s erase_absent noop", t.tag); return false; }
         if (!e) e = P.graveyard[b % P.graveyard.size()];
         // its node still carries the key it had (the library reads it to pick the bucket)
-        size_t k = e->hn.key;
+        size_t k = ((struct cstl_hash_node *)((char *)e + t.off))->key;     // (the member this table links)
         LIB(cstl_hash_erase(&t.h, e));
         TRACE("%s erase of an object that is not in the table (e%d, key field %zu)", t.tag, e->id, k);
         c19_keyed(t, k, false, false);
@@ -619,6 +622,8 @@ bool apply(int op, uint8_t a, uint8_t b, uint8_t c, int ntab, size_t K, size_t m
         if (peek_pending(t) || peek_pending(o)) CNT("class.swap.pending");
         LIB(cstl_hash_swap(&t.h, &o.h));
         std::swap(t.model, o.model);
+        std::swap(t.off, o.off);            // the table objects exchange everything, the member they link included
+        if (t.off != o.off) CNT("class.swap.mixed_offsets");
         std::swap(t.n, o.n);
         std::swap(t.has_buckets, o.has_buckets);
         std::swap(t.cap, o.cap);
@@ -770,7 +775,9 @@ void vf_run(const uint8_t *data, size_t len)
     cx.c19 = g_prop == "C19";
     cx.c17 = g_prop == "C17";
     cx.c16 = g_prop == "C16";
-    int ntab = 1 + cur.u8() % 2;
+    uint8_t hb0 = cur.u8();
+    int ntab = 1 + (hb0 & 0x7f) % 2;
+    bool mixed = (hb0 & 0x80) && ntab == 2;
     uint8_t kb = cur.u8();
     size_t K = KEYS[kb % 8];
     g_key_xf = (kb / 8) % 8;
@@ -785,7 +792,7 @@ void vf_run(const uint8_t *data, size_t len)
     g_bad_delivered = false;
     if (cx.c19 || cx.c17) ntab = 1;
     T[0].init("T0");
-    T[1].init("T1");
+    T[1].init("T1", mixed ? offsetof(Elem, hn2) : offsetof(Elem, hn));
     std::vector<uint8_t> tab;
     for (int o = 0; o < NOPS; o++) {
         int w = PROFILES[prof][o];
@@ -879,7 +886,7 @@ void vf_run(const uint8_t *data, size_t len)
 void vf_gen(Rng &r, std::vector<uint8_t> &out)
 {
     bool c04 = g_prop == "C04", c19 = g_prop == "C19", c17 = g_prop == "C17", c16 = g_prop == "C16";
-    out.push_back(r.byte());
+    out.push_back((uint8_t)((r.byte() & 0x7f) | (r.chance(1, 4) ? 0x80 : 0)));     // tables; 1 in 4: the two tables link different node members
     static const uint8_t kw3[] = {0, 1, 2, 3, 4, 4, 5, 5, 6, 7};
     static const uint8_t kw19[] = {4, 5, 5, 6, 6, 7};
     uint8_t kidx = c19 || c17 ? kw19[r.below(sizeof kw19)] : kw3[r.below(sizeof kw3)];
